@@ -41,14 +41,19 @@ impl Iterator for Chars<'_> {
             self.pos += 1;
             Some(Ok(self.bytes[self.pos - 1] as char))
         } else {
-            let c = std::str::from_utf8(&self.bytes[self.pos..self.pos + width]);
-            if let Ok(chr) = c {
-                self.pos += width;
-                Some(Ok(chr.chars().next().unwrap()))
-            } else {
-                self.pos += 1;
-                Some(Err(self.bytes[self.pos]))
+            // `width` is 0 for a byte that cannot start a sequence, and a sequence can be cut
+            // short by the end of the input.
+            let end = self.pos + width;
+            if width > 1
+                && end <= self.bytes.len()
+                && let Ok(chr) = std::str::from_utf8(&self.bytes[self.pos..end])
+                && let Some(chr) = chr.chars().next()
+            {
+                self.pos = end;
+                return Some(Ok(chr));
             }
+            self.pos += 1;
+            Some(Err(self.bytes[self.pos - 1]))
         }
     }
 }
